@@ -167,9 +167,28 @@ def property_check(c, line):
     return None
 
 
+def encoder_cases(rng, tier):
+    """SourceBlockEncoder::new is the cache's only caller: encoders built through the cache must equal encoders
+    built without it, for blocks of every byte length incl. 64 KiB and more (key arithmetic on lengths)"""
+    out = []
+    shapes = [(1, 10), (8, 26), (1024, 64), (4096, 17), (1024, 65), (2048, 33), (512, 130)] if tier == "quick" else \
+             [(1, 10), (8, 26), (1024, 64), (4096, 17), (1024, 65), (2048, 33), (512, 130), (65535, 2), (32768, 3), (256, 257), (4096, 16), (128, 513)]
+    for (t, k) in shapes:
+        data = list(rng.bytes(t * k))
+        out.append((C.Case("variant_packets", [t, 0, 0, 2] + data), C.Case("variant_packets", [t, 2, 0, 2] + data)))
+    return out
+
+
 def evaluate(cases, rep, tier):
     impl, model, dis = G.diff_impl_model(cases, PROFILES, "cache")
     counter = []
+    enc = encoder_cases(C.Rng(C.get_seed()).fork("C17enc"), tier)
+    flat = [c for pair in enc for c in pair]
+    er = C.run_impl_crashsafe(flat, "release", chunk=2, timeout=600)
+    for i, (a, b) in enumerate(enc):
+        ra, rb = er[2 * i], er[2 * i + 1]
+        if ra != rb or not ra.startswith("1"):
+            counter.append({"input": " ".join(a.impl_line().split()[:5]) + f" <{len(a.args) - 4} data bytes>", "expected": "the encoder built through the plan cache equals the encoder built without it", "observed": (ra[:50] + " vs " + rb[:50]), "oracle": "cache transparency through SourceBlockEncoder::new"})
     nt = 0
     for c, i in zip(cases, impl):
         why = property_check(c, i)
@@ -183,7 +202,7 @@ def evaluate(cases, rep, tier):
     return {"disagreements": dis, "counterexamples": counter,
             "stats": {"evaluations": len(cases) * 2, "distinct_nontrivial": len(set(c.key() for c in cases if c.tag != "random")),
                       "samples": [cases[0].impl_line() + " -> " + impl[0]],
-                      "steps_compared": sum(len(c.args) // 3 for c in cases), "input_distribution": kinds}}
+                      "steps_compared": sum(len(c.args) // 3 for c in cases), "encoders_via_cache_vs_uncached": len(enc), "input_distribution": kinds}}
 
 
 def kernel_ok(c):
